@@ -97,3 +97,47 @@ func TestVerifC02(t *testing.T) {
 	}
 	out.Close("C02.Check", "")
 }
+
+// TestVerifC15Pipe: second part of the C15 check. Weighted backends through the WHOLE pipeline (graph weight
+// defaulting/validation, backend groups, split_clients, proxy_pass) compared with the specification's shares
+// (C02.Check cases): the same Service referenced several times with different weights, zero weights, invalid refs.
+func TestVerifC15Pipe(t *testing.T) {
+	out := vu.Open("C15")
+	out.ShardLen(15)
+	rng := vu.NewRng(out.Seed ^ 0xC15B)
+	n := out.Count(75, 1500)
+	for i := 0; i < n; i++ {
+		r := rng.Fork()
+		c := vsGen(r, 2+(i*4)/n)
+		// every rule that proxies gets 2-4 backends drawn from two services, weights from a small set incl. 0
+		for ri := range c.Routes {
+			for ui := range c.Routes[ri].Rules {
+				ru := &c.Routes[ri].Rules[ui]
+				if len(ru.Backends) == 0 {
+					continue
+				}
+				nb := 2 + r.Intn(3)
+				ru.Backends = nil
+				for k := 0; k < nb; k++ {
+					b := vsBackend{Name: vsPick(r, vsSvcPool[:2]), Port: 80, Weight: int32([]int{0, 1, 1, 3, 9, 10, 90, 100, 1000000}[r.Intn(9)])}
+					if r.Chance(1, 10) {
+						b.Name = "missing"
+					}
+					ru.Backends = append(ru.Backends, b)
+				}
+			}
+		}
+		w := vpRunState(c, false)
+		files := w.Files()
+		reqs := vsGenRequests(r, c, 25)
+		var rq []string
+		for _, q := range reqs {
+			rq = append(rq, q.Coq())
+		}
+		http := files["/etc/nginx/conf.d/http.conf"]
+		term := vu.App("Case", c.Coq(), vu.Str(http), vsMatchTableCoq(files["/etc/nginx/conf.d/matches.json"]), vu.List(rq))
+		out.Case(term, map[string]any{"cluster": c, "requests": reqs, "http.conf": http}, len(http) > 2500, c.Coq())
+		out.Tally("http.conf_kb", strconv.Itoa(len(http)/1024))
+	}
+	out.Close("C02.Check", "")
+}
